@@ -5,6 +5,7 @@
    representation invariant RInv as the loop invariant; the C09 / C01 theorems of WriterProofs.v and
    RoundTripRun.v are then carried along it.  A source edit that breaks one of these properties
    changes gen/Src2.v and a proof of SrcTie2.v or of this file stops compiling. *)
+From MLA Require Import Limit.
 From MLA Require Import Base Stream Blocks Writer WriterProofs SrcTie2 RoundTripBlocks RoundTripWriter RoundTripRun RoundTripGlue.
 From MLAGen Require Src2.
 From Coq Require Import ZifyBool ZifyNat ZifyN.
@@ -14,6 +15,7 @@ Open Scope N_scope.
 Definition aw0 : Src2.ArchiveWriter := Src2.mkAW [] (Src2.OpenedFiles [] []) [] [] 0 0.
 
 Section CarryWriter.
+  Context {LIM : Limit}.
   Variable FNMAX : N.
   Variables T_START T_CONTENT T_EOA T_EOF : N.
   Variable H : bytes -> bytes.
@@ -231,7 +233,9 @@ Section CarryWriter.
       destruct (w_finalize (s1)) as [s2 x] eqn:E2. injection Hm as Hs2 Hrs. subst rs.
       apply Forall_app in Hok. destruct Hok as [_ Hok2]. apply Forall_inv in Hok2.
       unfold Writer.w_finalize_with in E2. destruct (w_final s1); [injection E2 as <- <-; discriminate|].
-      destruct (w_open s1); [|injection E2 as <- <-; discriminate]. injection E2 as E2 _.
+      destruct (w_open s1); [|injection E2 as <- <-; discriminate]. cbv zeta in E2.
+      destruct (lim <? _); [injection E2 as <- <-; discriminate|].
+      destruct (2 ^ 32 <=? _); [injection E2 as <- <-; discriminate|]. injection E2 as E2 _.
       assert (Hfin : w_final (absW sf) = true) by (rewrite <- Hs2, <- E2; reflexivity).
       unfold absW in Hfin. cbn [w_final] in Hfin. destruct (Src2.state sf); [discriminate | reflexivity].
     - exists s, bl. change (Src2.dest sf) with (w_out (absW sf)).
@@ -243,6 +247,8 @@ End CarryWriter.
 
 (* ---------- non-vacuity, through the GENERATED code ---------- *)
 Section Example.
+  (* concrete: the production value of BINCODE_MAX_DESERIALIZE *)
+  Local Hint Extern 0 Limit => exact 536870912 : typeclass_instances.
   Let step := src_wstep 4 0 1 254 255 (fun b => b) (fun f => f).
   Let run := src_wrun 4 0 1 254 255 (fun b => b) (fun f => f).
   (* a duplicate, an over-long name and a short source are refused / reported, and the refused calls
